@@ -105,3 +105,4 @@ c("epoch", EP, EI, r"^\s*pub fn value\(self\) -> usize \{", "Epoch::value",
 # ---- C13: SealedBag::is_expired -------------------------------------------------------------------
 c("expired", "src/ebr_impl/internal.rs", r"^impl SealedBag \{", r"^\s*fn is_expired\(&self, global_epoch: Epoch\) -> bool \{", "SealedBag::is_expired",
   "#[kani::ensures(|r| verif_internal::post_is_expired(self, global_epoch, *r))]")
+
